@@ -13,6 +13,8 @@ class Analysis:
         self.roles = {}
         self.evals = {}
         self._paths = {}
+        self._classified = set()
+        self._ready = False
         self.incomplete = []
         self.renamed = model.canonicalise_names(self.prog)
         for name in frontend.CONTAINERS:
@@ -23,6 +25,7 @@ class Analysis:
         for name in frontend.CONTAINERS:
             self.roles[name].inert = self.compute_inert(self.prog.classes[name], self.roles[name])
             self.roles[name].capacity_copies = self.capacity_copies(self.prog.classes[name])
+        self._ready = True
 
     def capacity_copies(self, cm):
         """const scalar members the constructor initialises with its `capacity` argument (`const size_t m_capacity`): the capacity"""
@@ -83,7 +86,7 @@ class Analysis:
 
         bad = set()
         for m in self.entry_points(cm):
-            accessor = ops.kind_of(m) == 'UNKNOWN'
+            accessor = m.name not in ops.KIND
             for p in self.paths(cm, m):
                 for e, _ in flat_events(p):
                     k = e[0]
@@ -129,6 +132,16 @@ class Analysis:
         return self._paths[k]
 
     def entry_points(self, cm, ctor=False):
+        import ops
+        if self._ready and cm.name not in self._classified and cm.name in self.roles:
+            self._classified.add(cm.name)
+            for m in cm.methods:
+                if m.access == 'public' and not m.is_ctor and m.body is not None and m.name not in ops.KIND \
+                        and not m.name.startswith('operator') and not m.name.startswith('~'):
+                    try:
+                        m.eff_kind = ops.classify_new_method(self, cm, self.roles[cm.name], m)
+                    except frontend.AnalysisIncomplete:
+                        raise
         seen = set()
         for m in cm.methods:
             if m.access != 'public':
